@@ -1,1 +1,96 @@
-From Verif Require Import Base.Harness Model.OracleRound Model.OracleRoundCheck.
+(* C07 — Reports enter only an open round; each round aggregates exactly once.
+   Property theorems only; proofs live in Proofs/OracleRoundProofs.v and Proofs/OracleRoundInv.v. *)
+From Coq Require Import ZArith List Bool String Permutation.
+From Verif Require Import Base.Harness Model.OracleRound Model.OracleRoundCheck Proofs.OracleRoundProofs Proofs.OracleRoundInv.
+Import ListNotations.
+Open Scope Z_scope.
+
+(* the store invariant (sorted, key-unique Query / Reports / Aggregates collections, cycle-list
+   sequencer in range) holds in every state reachable by any sequence of tips, reports, end blockers,
+   cycle-list replacements and data-spec updates, accepted or rejected *)
+Theorem C07_invariant_all_histories qinfos ops s : oinv s -> oinv (run qinfos s ops).
+Proof. exact (run_inv qinfos ops s). Qed.
+Print Assumptions C07_invariant_all_histories.
+
+Theorem C07_invariant_initially cycle sw bw : cycle <> [] -> oinv (genesis cycle sw bw).
+Proof. exact (genesis_inv cycle sw bw). Qed.
+Print Assumptions C07_invariant_initially.
+
+(* a report is accepted only if: the query is a bridge deposit, or it currently carries a tip or is
+   the scheduled cycle-list query and its window has not closed; the reporter is known, not jailed
+   (stake = Some ..) and holds the minimum stake; never for withdrawal queries *)
+Theorem C07_accept_only_if s h q rep stake mn vok s' :
+  submit_value s h q rep stake mn vok = inl s' -> accept_spec s h q stake mn = true.
+Proof. exact (submit_accept_only_if s h q rep stake mn vok s'). Qed.
+Print Assumptions C07_accept_only_if.
+
+(* and conversely every well-formed report the specification admits is accepted *)
+Theorem C07_accept_if s h q rep stake mn :
+  metas_wf (o_queries s) -> qi_kind q <> KNoSpec ->
+  accept_spec s h q stake mn = true -> exists s', submit_value s h q rep stake mn true = inl s'.
+Proof. exact (submit_accept_if s h q rep stake mn). Qed.
+Print Assumptions C07_accept_if.
+
+Theorem C07_withdrawal_never_reportable s h q rep stake mn vok :
+  qi_kind q = KWithdraw -> submit_value s h q rep stake mn vok = inr RWithdrawal.
+Proof. exact (withdrawal_never_reportable s h q rep stake mn vok). Qed.
+Print Assumptions C07_withdrawal_never_reportable.
+
+(* a reporter's later report in the same round replaces the earlier one: after an accepted report the
+   store holds exactly one report under (query, reporter, round) - the new one -, every report with
+   another key is still there, and nothing else was added *)
+Theorem C07_later_report_replaces s h q rep stake mn vok s' :
+  reports_sorted (o_reports s) -> submit_value s h q rep stake mn vok = inl s' ->
+  exists r, rp_qid r = qi_id q /\ rp_reporter r = rep /\ rp_height r = h /\
+    reports_sorted (o_reports s') /\ In r (o_reports s') /\
+    (forall y, In y (o_reports s') -> rep_key_eq r y = true -> y = r) /\
+    (forall y, In y (o_reports s) -> rep_key_eq r y = false -> In y (o_reports s')) /\
+    (forall y, In y (o_reports s') -> y = r \/ In y (o_reports s)).
+Proof. exact (submit_replaces s h q rep stake mn vok s'). Qed.
+Print Assumptions C07_later_report_replaces.
+
+(* in the block where windows close: every round with reports whose window has closed disappears,
+   every other round stays as it is, and the Aggregates store gains exactly one aggregate per closing
+   round - built from exactly that round's reports, with their summed power and the query's next
+   sequence number - and nothing else; reports, cycle list and sequencer are untouched.
+   Hypotheses: no two rounds of one query close in the same block (closing_distinct) and the block's
+   timestamp is new for those queries (block time strictly increases). *)
+Theorem C07_closing_round_aggregates_exactly_once s h ts :
+  let s' := set_aggregated_report s h ts in
+  closing_distinct h (o_queries s) -> fresh_ts h ts (o_queries s) (o_aggs s) ->
+  o_queries s' = filter (fun y => negb (existsb (fun m => closing h m && meta_key_eq m y) (o_queries s))) (o_queries s) /\
+  Permutation (o_aggs s') (map (mk_agg s h ts) (filter (closing h) (o_queries s)) ++ o_aggs s) /\
+  o_reports s' = o_reports s /\ o_cycle s' = o_cycle s /\ o_seq s' = o_seq s.
+Proof. exact (set_aggregated_report_correct s h ts). Qed.
+Print Assumptions C07_closing_round_aggregates_exactly_once.
+
+(* on reachable states the remaining rounds are simply those that are not closing *)
+Theorem C07_remaining_rounds h l : metas_sorted l ->
+  filter (fun y => negb (existsb (fun m => closing h m && meta_key_eq m y) l)) l = filter (fun y => negb (closing h y)) l.
+Proof. exact (closing_filter_simpl h l). Qed.
+Print Assumptions C07_remaining_rounds.
+
+(* a tip on a round that received no report stays with the query through the end blocker (same round
+   id, same amount), whatever the rotation does *)
+Theorem C07_unreported_tip_stays s h ts k s' m :
+  metas_sorted (o_queries s) -> end_block s h ts k = Some s' ->
+  In m (o_queries s) -> m_has_reports m = false -> m_amount m <> 0 -> tip_kept m (o_queries s').
+Proof. exact (end_block_keeps_unreported_tip s h ts k s' m). Qed.
+Print Assumptions C07_unreported_tip_stays.
+
+(* the cycle list moves only in a block in which the current query no longer has an open window, and
+   then to the next entry in list order, wrapping around *)
+Theorem C07_rotation s h k s' : cycle_ok s -> rotate s h k = Some s' ->
+  s' = s \/ (open_window_p s h = false /\ o_seq s' = (o_seq s + 1) mod Z.of_nat (List.length (o_cycle s)) /\ o_cycle s' = o_cycle s).
+Proof. exact (rotate_spec s h k s'). Qed.
+Print Assumptions C07_rotation.
+
+(* non-vacuity: a concrete history (tip, two reports of one reporter, the closing end blocker) *)
+Example C07_example :
+  let qi := [{| qi_id := 5; qi_kind := KSpot |}] in
+  let s0 := genesis [5] 2 2000 in
+  let s := run qi s0 [(1, OEndBlock 1000); (2, OSubmit 5 7 (Some 2000000) 1000000 "00000000000000000000000000000000000000000000000000000000000000aa");
+                      (2, OSubmit 5 7 (Some 3000000) 1000000 "00000000000000000000000000000000000000000000000000000000000000bb");
+                      (3, OEndBlock 2000); (4, OEndBlock 3000)] in
+  map ag_power (o_aggs s) = [3] /\ List.length (o_reports s) = 1%nat.
+Proof. vm_compute. split; reflexivity. Qed.
